@@ -100,6 +100,18 @@ pub fn run(ctx: &Ctx) -> ! {
                 }
             }
         }
+        // binary kernels against operands that alias x: dictionaries over a prefix slice of x's values
+        for (m, short) in crate::c03::prefix_dictionaries(&x) {
+            for k in &binary {
+                for args in [vec![short.clone(), x.clone()], vec![x.clone(), short.clone()]] {
+                    d1 += 1;
+                    match stage(k, &args) {
+                        Ok(o) => produced += o.len() as u64,
+                        Err(e) => st.violate(idx, format!("c01:malformed-output:{}:aliased-dictionary:{}:{}", k.name, e.split(':').next().unwrap_or(""), kind(dt)), e, || case(&format!("{}(prefix dictionary of {m} values, x)", k.name))),
+                    }
+                }
+            }
+        }
         st.add("pipelines-depth1", d1, if col.is_empty() { 0 } else { d1 });
         st.add("pipelines-depth2", d2, d2);
         st.count("arrays-validated", produced);
